@@ -296,6 +296,12 @@ func (c *rejectTrafficShapingController) PerformChecking(arg interface{}, batchC
 			} else {
 				// refill token
 				restQps := atomic.LoadInt64(oldQpsPtr)
+				oldRestQps := restQps
+				if restQps < 0 {
+					// a debt from a budget that was lowered inside the window (see metricForBudgetOf) ends
+					// with the window
+					restQps = 0
+				}
 				toAddTokenNum := mulDiv(passTime, tokenCount, c.durationInSec*1000)
 				newQps := int64(0)
 				if toAddTokenNum > maxCount-restQps {
@@ -307,7 +313,7 @@ func (c *rejectTrafficShapingController) PerformChecking(arg interface{}, batchC
 					msg := fmt.Sprintf("hotspot reject check blocked, request batch count is more than available token count, arg: %v", arg)
 					return base.NewTokenResultBlockedWithCause(base.BlockTypeHotSpotParamFlow, msg, c.BoundRule(), nil)
 				}
-				if atomic.CompareAndSwapInt64(oldQpsPtr, restQps, newQps) {
+				if atomic.CompareAndSwapInt64(oldQpsPtr, oldRestQps, newQps) {
 					atomic.StoreInt64(lastAddTokenTimePtr, currentTimeInMs)
 					return nil
 				}
